@@ -496,8 +496,21 @@ def run(ctx):
         mu = Unit(roles, mb.key, extended=True)
         vecp = 2 if mb.kind == "closure" else 1
         ctx.check(me.table.role == "eager" and me.accepted() == (0, float("inf")), "K1.binding", "merge is an eager operator taking any number of operands (%s)" % cfg, "merge: %s table, arity %s" % (me.table.role, me.num), where=mb.where(), fn=mb.key)
-        rec = [s for s in mu.calls_to(mb.key)]
-        ctx.check(not rec, "K1.not-recursive", "merge does not call itself (%s)" % cfg, "merge is recursive", where=mb.where(), fn=mb.key, nontrivial=True)
+        # one level only: nothing of merge's own code (the function, its closures, the private helpers it reaches
+        # without going through the interpreter) is on a call cycle — wherever the per-operand code lives
+        cg, _ = facts.callgraph()
+        rec = []
+        for k in sorted(mu.keys):
+            seen_, st_ = set(), [x for x in cg.get(k, ()) if x in mu.keys]
+            while st_:
+                y = st_.pop()
+                if y in seen_:
+                    continue
+                seen_.add(y)
+                st_.extend(x for x in cg.get(y, ()) if x in mu.keys)
+            if k in seen_:
+                rec.append(k)
+        ctx.check(not rec, "K1.not-recursive", "merge does not call itself (%s)" % cfg, "merge's code is recursive (%s): more than one level can be flattened" % ", ".join(rec)[:160], where=mb.where(), fn=mb.key, nontrivial=True)
         for s in mu.calls(lambda c: MUTATORS.search(c["path"]) is not None):
             ctx.fail("K1.append-only", "merge|%s" % callee_path(s.term).rsplit("::", 1)[1], "merge edits its result with %s (order / multiplicity would change)" % callee_path(s.term), where=s.where(), fn=s.body.key)
         # the pass over the operands and the contribution of each kind of operand
